@@ -40,7 +40,7 @@ Proof.
             | apply opEq_ok | apply opIszero_ok | apply opAnd_ok | apply opOr_ok | apply opXor_ok
             | apply opNot_ok | apply opByte_ok | apply opSHL_ok | apply opSHR_ok | apply opSAR_ok ]|]).
     contradiction.
-  - reflexivity.
+  - eexists. split; [reflexivity|]. split; [reflexivity|]. intros. apply opStop_sem.
   - eexists _, _. split; [reflexivity|]. split; [reflexivity|]. split; [reflexivity|]. apply opExp_ok.
   - eexists _, _. split; [reflexivity|]. split; [reflexivity|]. split; [reflexivity|]. apply opPop_ok.
   - eexists _, _. split; [reflexivity|]. split; [reflexivity|]. split; [reflexivity|]. apply opMload_ok.
@@ -49,9 +49,15 @@ Proof.
   - eexists _, _. split; [reflexivity|]. split; [reflexivity|]. split; [reflexivity|]. apply opSload_ok.
   - eexists _, _. split; [reflexivity|]. split; [reflexivity|]. split; [reflexivity|]. apply opSstore_ok.
   - eexists _, _. split; [reflexivity|]. split; [reflexivity|]. split; [reflexivity|]. apply opMsize_ok.
-  - intros op H. enum256 op; reflexivity.
-  - intros op H. enum256 op; reflexivity.
-  - intros op H. enum256 op; reflexivity.
+  - intros op H. enum256 op;
+      (eexists; split; [reflexivity|]; split; [reflexivity|];
+       intros code pc c H1 H2; apply makePush_sem; [lia|exact H1|exact H2]).
+  - intros op H. enum256 op;
+      (eexists; split; [reflexivity|]; split; [reflexivity|]; split; [reflexivity|];
+       intros code pc c Hl; apply makeDup_sem; [lia|exact Hl]).
+  - intros op H. enum256 op;
+      (eexists; split; [reflexivity|]; split; [reflexivity|]; split; [reflexivity|];
+       intros code pc c Hl; apply makeSwap_sem; [lia|exact Hl]).
   - intros op H.
     assert (Hb : op < 256) by (unfold spec_unassigned in H; lia).
     enum256 op; first [reflexivity | cbn in H; discriminate].
@@ -64,10 +70,8 @@ Qed.
 Definition recorded_fingerprints : list (string * string) :=
   [("common/bytes.go:RightPadBytes", "04aacee45d4653ec");
    ("common/math/big.go:BigPow", "aa04da9c3531e023");
-   ("common/math/big.go:Byte", "50291afc352fda65");
    ("common/math/big.go:Exp", "348b3cf7f243059a");
    ("common/math/big.go:ReadBits", "a40f8e97e1f1df57");
-   ("common/math/big.go:bigEndianByteAt", "e74fcdc87838e813");
    ("common/types.go:BigToHash", "d26cff768f7341d9");
    ("common/types.go:BytesToHash", "130603172f582dfa");
    ("common/types.go:Hash.Bytes", "f9b540477c3af900");
@@ -82,10 +86,6 @@ Definition recorded_fingerprints : list (string * string) :=
    ("core/vm/gas_table.go:gasSStoreEIP2200", "c3197f8d02744610");
    ("core/vm/gas_table.go:memoryGasCost", "66df6796ef6e663f");
    ("core/vm/gas_table.go:pureMemoryGascost", "20441ee93783e555");
-   ("core/vm/instructions.go:makeDup", "9a38e772db08d6e1");
-   ("core/vm/instructions.go:makePush", "4a4972eda4e8eb7e");
-   ("core/vm/instructions.go:makeSwap", "da747ed945407ee1");
-   ("core/vm/instructions.go:opStop", "c4f0782d5adef2c1");
    ("core/vm/interpreter.go:EVMInterpreter.Run", "4e07c30869dc65fc");
    ("core/vm/intpool.go:intPool.get", "344e45b13c8a8faa");
    ("core/vm/intpool.go:intPool.getZero", "5fc28810dd45c288");
@@ -98,10 +98,8 @@ Definition recorded_fingerprints : list (string * string) :=
    ("core/vm/memory_table.go:memoryMStore", "db9db80cdfc84ced");
    ("core/vm/memory_table.go:memoryMStore8", "f448c027082dc99a");
    ("core/vm/stack.go:Stack.Back", "9cb7adc2c25672b8");
-   ("core/vm/stack.go:Stack.dup", "f1cb06703edfe0b3");
    ("core/vm/stack.go:Stack.peek", "2b987bc27afc258f");
    ("core/vm/stack.go:Stack.pop", "4aa41f70bc17dc50");
-   ("core/vm/stack.go:Stack.push", "5adc58a9bf540a48");
-   ("core/vm/stack.go:Stack.swap", "4b2f1cca3656229a")]%string.
+   ("core/vm/stack.go:Stack.push", "5adc58a9bf540a48")]%string.
 Lemma hand_modelled_unchanged : fingerprints = recorded_fingerprints.
 Proof. reflexivity. Qed.
